@@ -81,6 +81,10 @@ where
     }
 
     pub fn smap_to_mut(&mut self) -> &mut SMap<U, E> {
+        #[cfg(terohuttunen_proto_vulcan_verif)]
+        if Rc::strong_count(&self.smap) > 1 {
+            crate::verif_sim::probe("cow_copy_smap", 0);
+        }
         Rc::make_mut(&mut self.smap)
     }
 
@@ -103,6 +107,10 @@ where
     }
 
     pub fn cstore_to_mut(&mut self) -> &mut ConstraintStore<U, E> {
+        #[cfg(terohuttunen_proto_vulcan_verif)]
+        if Rc::strong_count(&self.cstore) > 1 {
+            crate::verif_sim::probe("cow_copy_cstore", 0);
+        }
         Rc::make_mut(&mut self.cstore)
     }
 
@@ -128,6 +136,10 @@ where
     }
 
     pub fn dstore_to_mut(&mut self) -> &mut HashMap<LTerm<U, E>, Rc<FiniteDomain>> {
+        #[cfg(terohuttunen_proto_vulcan_verif)]
+        if Rc::strong_count(&self.dstore) > 1 {
+            crate::verif_sim::probe("cow_copy_dstore", 0);
+        }
         Rc::make_mut(&mut self.dstore)
     }
 
@@ -215,6 +227,8 @@ where
         assert!(x.is_var());
         match domain.singleton_value() {
             Some(n) => {
+                #[cfg(terohuttunen_proto_vulcan_verif)]
+                crate::verif_sim::probe("singleton_domain_became_binding", 0);
                 // Extend substitution from `x` to the singleton value `n`
                 self.smap_to_mut().extend(x.clone(), LTerm::from(n));
 
@@ -312,6 +326,8 @@ where
         for (x, v) in extension.iter() {
             match dstore.get(x) {
                 Some(domain) => {
+                    #[cfg(terohuttunen_proto_vulcan_verif)]
+                    crate::verif_sim::probe("domain_moved_on_unification", 0);
                     self = self
                         .process_domain(v, domain.clone())?
                         .remove_domain(x)?
